@@ -6,6 +6,7 @@ import (
 	"sync/atomic"
 
 	"github.com/trustbloc/sidetree-core-go/pkg/api/operation"
+	"github.com/trustbloc/sidetree-core-go/pkg/api/txn"
 	"github.com/trustbloc/sidetree-core-go/pkg/batch"
 	"github.com/trustbloc/sidetree-core-go/pkg/versions/1_0/operationparser"
 
@@ -197,6 +198,30 @@ func c05ThroughWriter(c *hx.Ctx) {
 			case got != 0 && got-1 != o.ver:
 				c.Violation(fmt.Sprintf("C05 operation %s accepted under version %d was anchored in a batch of version %d (its default window is then computed with another delta) :: queue %v", o.id, o.ver, got-1, descr), replay)
 				return
+			}
+		}
+		// a late reader on the same node (same parser objects): long after every window has closed the anchored batches still read
+		// back - the anchoring time decides, not the reader's clock
+		atomic.StoreInt64(&now, 1<<40)
+		for _, m := range []struct {
+			ver  uint64
+			v    *hx.Version
+			incl map[string][]string
+		}{{0, vA, inclA}, {G, vB, inclB}} {
+			for a, ids := range m.incl {
+				written := false
+				for _, s := range anchor.Seen {
+					written = written || s == a
+				}
+				if !written || len(ids) == 0 {
+					continue // (a cut whose operations had all expired is anchored with a count of 0: nothing to read back)
+				}
+				got, err := m.v.Provider.GetTxnOperations(&txn.SidetreeTxn{AnchorString: a, Namespace: hx.Namespace, TransactionTime: uint64(cut), ProtocolVersion: m.ver})
+				if err != nil || len(got) != len(ids) {
+					c.Violation(fmt.Sprintf("C05 a batch anchored at time %d (%d operations, all inside their windows) does not read back on the same node once the node's clock has passed the windows: %d operations, err=%v :: queue %v", cut, len(ids), len(got), err, descr), replay)
+					return
+				}
+				c.Count("anchored_batches_read_back_after_their_windows_closed")
 			}
 		}
 		c.Count("writer_runs_across_an_upgrade")
